@@ -121,6 +121,16 @@ class Prop(common.PropertyCheck):
                         shared = 'after its tick locator computed ticks the transform maps the same display values to other data values'
                 except Exception as e:
                     shared = 'tick locator raised %s: %s' % (type(e).__name__, str(e)[:80])
+                # the inverse is a function of the data VALUE: integer-typed events (as loaded from an integer file) get the display position of the same number
+                try:
+                    xi = np.unique(np.clip(np.array([0, 1, 2, 7, 100, 1000, T / 2.0, T]), 0, T).astype(np.int64))
+                    di = np.asarray(inv.transform_non_affine(xi, mask_out_of_range=False), dtype=float)
+                    df = np.asarray(inv.transform_non_affine(xi.astype(np.float64), mask_out_of_range=False), dtype=float)
+                    if shared is None and not np.array_equal(di, df):
+                        shared = 'the inverse maps the integer-typed data values %s to %s, the same values as floating-point numbers to %s' % (xi.tolist()[:5], di.tolist()[:5], df.tolist()[:5])
+                except Exception as e:
+                    if shared is None:
+                        shared = 'the inverse of integer-typed data values raised %s' % type(e).__name__
                 return {'p': bits(p), 's': [bits(v) for v in s], 'x': [bits(v) for v in x], 'shared': shared,
                         'default_inverse_ok': default_ok,
                         'maxerr': float(np.max(np.abs(np.asarray(back) - s[:-1]))), 'inv_mono': bool(np.all(np.diff(invs) >= 0)),
